@@ -93,9 +93,10 @@ def run(ctx):
         setcols = {c for c, e in up["set"] if e == ("col", c) or (e[0] == "col")}
         need = {"clientid", "start", "expiry"}
         replaces_all = up["target"] == ["address"] and need <= {c for c, _ in up["set"]} and all(
-            e == ("col", c) for c, e in up["set"] if c in need)
+            e == ("col", c) for c, e in up["set"] if c in need) and up.get("where") is None
         detail = "ON CONFLICT(%s) DO UPDATE SET %s — an existing row for the address must take over the new client id, start and expiry (missing: %s)" % (
-            ",".join(up["target"]), ",".join(c for c, _ in up["set"]), sorted(need - {c for c, _ in up["set"]}))
+            ",".join(up["target"]), ",".join(c for c, _ in up["set"]) + (" WHERE ..(conditional)" if up.get("where") is not None else ""),
+            sorted(need - {c for c, _ in up["set"]}))
     ctx.check(replaces_all, "R2", "insert-or-replace" if replaces_all else "conflict=%s:row-not-fully-replaced" % conflict, ctx.where(wbody, W.term["sp"]),
               "the lease write must replace the whole row for the address (INSERT OR REPLACE, or an upsert that sets clientid, start, expiry): %s" % detail)
     creates = [s for s in lsql if s.stmt["kind"] == "create"]
